@@ -26,7 +26,7 @@ func init() {
 		Assumptions: []string{"range over a slice visits indices in ascending order", "the AWS SDK clients are opaque"},
 		Tech:        "static analysis: loop-structure path rules (failure edges return to the loop head), must-release wipe dataflow, struct-tag sibling agreement between the two plugins",
 		NeedU1:      true,
-		Rules:       []func(*Ctx){ruleC17TryAllRegions, ruleC17ClientOrder, ruleC17EntryPerSuccess, ruleC10Wipe, ruleC10WipeNotEarly, ruleC17SiblingEnvelope, ruleC17PreferredFirst, ruleC17NoLoopVarAlias, ruleC17WorkerContextLives, ruleC17ClientPerRegion, ruleC17KEKMatchedByRegion, ruleC07SuccessCarriesData},
+		Rules:       []func(*Ctx){ruleC17TryAllRegions, ruleC17ClientOrder, ruleC17EntryPerSuccess, ruleC10Wipe, ruleC10WipeNotEarly, ruleC17SiblingEnvelope, ruleC17PreferredFirst, ruleC17NoLoopVarAlias, ruleC17WorkerContextLives, ruleC17ClientPerRegion, ruleC17KEKMatchedByRegion, ruleC17EveryClientAsked, ruleC07SuccessCarriesData, errorsPropagateRule("C17", 10, c17ErrExempt, pkgKmsV1, pkgKmsV2)},
 	})
 }
 
@@ -73,6 +73,7 @@ func ruleC17TryAllRegions(c *Ctx) {
 		}
 		c.FuncsAnalysed[shortName(f)] = true
 		n := 0
+		heads := map[*ssa.BasicBlock]bool{}
 		allInstrs(f, func(i ssa.Instruction) {
 			if _, ok := i.(*ssa.Call); !ok {
 				return
@@ -107,6 +108,7 @@ func ruleC17TryAllRegions(c *Ctx) {
 				return
 			}
 			n++
+			heads[head] = true
 			c.CallSites++
 			construct := name + "/" + calleeLabel(i)
 			tested := false
@@ -152,6 +154,40 @@ func ruleC17TryAllRegions(c *Ctx) {
 		})
 		if n == 0 {
 			c.bad(name+"/loop", u.pos(f.Pos()), "no per-region step inside a loop found")
+		}
+		// the region loop is left early only with a success: every edge from a block of the loop body to a block outside
+		// the loop (break, return) leads only to returns with a nil error
+		for head := range heads {
+			inLoop := func(b *ssa.BasicBlock) bool { return head.Dominates(b) && blockReaches(b, head) }
+			for _, b := range f.Blocks {
+				if b == head || !inLoop(b) {
+					continue
+				}
+				for _, s := range b.Succs {
+					if inLoop(s) {
+						continue
+					}
+					c.CallSites++
+					found, tr := pathSearchAt(s, 0, func(j ssa.Instruction) pathAction {
+						if r, isR := j.(*ssa.Return); isR {
+							if !isNilValue(returnedValue(r, len(r.Results)-1)) {
+								return pathFound
+							}
+							return pathStop
+						}
+						return pathContinue
+					}, func(from, to *ssa.BasicBlock) bool { return !inLoop(to) })
+					pos := ""
+					if len(b.Instrs) > 0 {
+						pos = u.ipos(b.Instrs[len(b.Instrs)-1])
+					}
+					if found {
+						c.bad(name+"/early-exit", pos, "the region loop is left from inside its body on a path that ends in an error return (a break, or a return of an error): the remaining regions are never tried although one of them could serve the request", u.tracePositions(tr)...)
+					} else {
+						c.ok(name+"/early-exit", pos, "the loop body is left early only with a success")
+					}
+				}
+			}
 		}
 		// the success return carries the step's result; error return only after the loop
 		for _, r := range returnsOf(f) {
@@ -625,3 +661,6 @@ func pluginName(pkg string) string {
 	}
 	return trimPkgDirs(pkg)
 }
+
+// exemptions of C17.errors-propagate (function → callee → reason)
+var c17ErrExempt = map[string]map[string]string{}
